@@ -96,6 +96,12 @@ const EX: &[([u8; 16], &str, &str)] = &[
     ([0xef, 0x89, 0x05, 0xa2, 0xc6, 0x95, 0x35, 0x91, 0xa1, 0xcd, 0x53, 0xd2, 0x01, 0x59, 0x92, 0xdd], "i", "TeamLoadFailure"),
     ([0x45, 0x60, 0xc7, 0x56, 0xda, 0x29, 0x30, 0x36, 0x81, 0xd4, 0x90, 0xa5, 0x0f, 0x01, 0x82, 0xcd], "ius", "TeamSaveSuccess"),
     ([0xe0, 0x54, 0x08, 0xd3, 0xa3, 0x13, 0x33, 0xdf, 0x9e, 0xb3, 0xdd, 0xb9, 0x90, 0xab, 0x95, 0x4a], "ius", "TeamLoadSuccess"),
+    // UUIDv3 (namespace e05ddaaa-c4e6-4cfb-b642-5d48e80c0029) of teehistorian-{antibot,player-finish,player-name,rejoinver6,team-finish}@ddnet.org
+    ([0x86, 0x6b, 0xfd, 0xac, 0xfb, 0x49, 0x3c, 0x0b, 0xa8, 0x87, 0x5f, 0xe1, 0xf3, 0xea, 0x00, 0xb8], "r", "Antibot"),
+    ([0x68, 0x94, 0x3c, 0x01, 0x23, 0x48, 0x3e, 0x01, 0x94, 0x90, 0x3f, 0x27, 0xf8, 0x26, 0x9d, 0x94], "ii", "PlayerFinish"),
+    ([0xd0, 0x16, 0xf9, 0xb9, 0x41, 0x51, 0x3b, 0x87, 0x87, 0xe5, 0x3a, 0x60, 0x87, 0xeb, 0x5f, 0x26], "is", "PlayerName"),
+    ([0xc1, 0xe9, 0x21, 0xd5, 0x96, 0xf5, 0x37, 0xbb, 0x8a, 0x45, 0x7a, 0x06, 0xf1, 0x63, 0xd2, 0x7e], "i", "PlayerRejoin"),
+    ([0x95, 0x88, 0xb9, 0xaf, 0x3f, 0xdc, 0x37, 0x60, 0x80, 0x43, 0x82, 0xde, 0xee, 0xe3, 0x17, 0xa5], "ii", "TeamFinish"),
 ];
 
 #[derive(Clone, Debug, PartialEq)]
@@ -326,6 +332,10 @@ fn build_stream(cfg: &ThCfg, ops: &[ThOp]) -> Built {
                                 let mut u = [0u8; 16];
                                 r.fill(&mut u);
                                 body.extend_from_slice(&u);
+                            }
+                            'r' => {
+                                let l = r.usize_below(len as usize + 1);
+                                body.extend_from_slice(&r.bytes(l));
                             }
                             _ => {}
                         }
